@@ -1,2 +1,4 @@
 -- generated tables are imported here as they are added
 import PtGen.EqTable
+import PtGen.Children
+import PtGen.ChildrenWitness
